@@ -387,6 +387,7 @@ type world struct {
 	rpcMode map[[2]int]string
 	rpcN    map[[2]int]int
 	gossipN map[[2]int]int
+	gsplitN map[int]int
 	curStep int
 	hist    []string
 	orderH  []string
@@ -540,7 +541,13 @@ func (w *world) interceptor(src, dst int) grpc.UnaryClientInterceptor {
 			}
 		}
 		if !sleep(time.Duration(1+r.Intn(15)) * time.Millisecond) {
-			rec("ctx")
+			// the caller's own deadline ran out during the ordinary latency of a call: not a fault of
+			// the simulator's making unless one is configured for this pair
+			if alive && !part && (mode == "" || mode == "ok") {
+				rec("ctx")
+			} else {
+				rec("ctx-faulted")
+			}
 			return status.FromContextError(ctx.Err()).Err()
 		}
 		switch {
@@ -650,7 +657,7 @@ func (s seededReader) Read(p []byte) (int, error) {
 
 func newWorld(t *testing.T, c *Case, o *Outcome) *world {
 	w := &world{t: t, c: c, o: o, start: time.Now(), clients: map[int]*simClient{}, conns: map[[2]int]*grpc.ClientConn{},
-		blocked: map[[2]int]bool{}, rpcMode: map[[2]int]string{}, rpcN: map[[2]int]int{}, gossipN: map[[2]int]int{},
+		blocked: map[[2]int]bool{}, rpcMode: map[[2]int]string{}, rpcN: map[[2]int]int{}, gossipN: map[[2]int]int{}, gsplitN: map[int]int{},
 		seed: c.Seed, stats: map[string]int64{}, leaveAt: map[[2]int]int64{}, lateGossip: map[[2]int]bool{}, notify: make(chan struct{}, 1), forcedDelay: map[int]int64{}, goTag: map[int64]string{}, viewAt: map[int][]string{}, pingKnow: map[int64]pingKnowledge{}, knownAtStop: map[int]map[string]bool{}, stopAt: map[int]int64{}}
 	base := os.Getenv("VERIF_DATA")
 	if base == "" {
@@ -1403,7 +1410,17 @@ func (w *world) exAnswered(cl *simClient, ex *rxExchange, at int64) {
 // ---- gossip ----------------------------------------------------------------------------
 
 func (w *world) gossipFrom(n *simNode) {
-	msgs := n.dstate.Distributor().GetBroadcasts(3, 1398)
+	limit := 1398
+	if sp := w.c.knob("gossip_split_pct", 0); sp > 0 && !w.settling() {
+		// memberlist fills whatever room is left in a packet: a small budget sends the queued
+		// broadcasts in several datagrams which are then lost, delayed and duplicated separately
+		w.gsplitN[n.idx]++
+		if r := w.keyed("gsplit", n.idx, 0, w.gsplitN[n.idx]); int64(r.Intn(100)) < sp {
+			limit = 40 + r.Intn(260)
+			w.statAdd("fault.gossip_small_packet", 1)
+		}
+	}
+	msgs := n.dstate.Distributor().GetBroadcasts(3, limit)
 	if len(msgs) == 0 {
 		return
 	}
